@@ -180,6 +180,8 @@ def handlers : List (String × Handler) := [
     pure (exceptToJson (fun (l : List (Option Int × Int × Int × Int × Rat × Rat × Rat)) => Json.arr (l.map (fun p =>
       Json.arr #[(match p.1 with | some c => (c : Json) | none => Json.null), (p.2.1 : Json), (p.2.2.1 : Json), (p.2.2.2.1 : Json),
         ratToJson p.2.2.2.2.1, ratToJson p.2.2.2.2.2.1, ratToJson p.2.2.2.2.2.2])).toArray) r)),
+  ("channelNumbers", fun j => do
+    pure (okJson (Json.arr ((channelNumbers (← getInt j "n")).map (fun c => match c with | some v => (v : Json) | none => Json.null)).toArray))),
   ("framePosition", fun j => do
     let r := framePosition (← getOptChannels j "channels") (← getInt j "planes") (← getInt j "tr") (← getInt j "tc")
       (← getInt j "R") (← getInt j "C") (← getGeo j "geo") (← getRat j "sbs") (← getInt j "k")
